@@ -1,10 +1,197 @@
 package main
 
 import (
+	"fmt"
+	"os"
+	"strings"
+	"time"
+
+	"github.com/rs/zerolog"
+	"github.com/rs/zerolog/mcrt"
+
+	"verif/drv"
 	"verif/explore"
 	"verif/seq"
 )
 
-func concFactory(name string) *explore.Scenario { return nil }
+// Concurrent part of C05: threads derive loggers from one shared parent (whose context slice has spare
+// capacity) and log through different nodes; scheduling points between every derivation / logging step
+// and at every pool / atomic operation inside zerolog. Each emitted line must be exactly what the emitting
+// node's own derivation path predicts, in every interleaving.
 
-func concPart(r *seq.Run, tier string) {}
+type tagHook struct{ id int }
+
+func (h tagHook) Run(e *zerolog.Event, l zerolog.Level, m string) { e.Int("hook", h.id) }
+
+type concInst struct {
+	threads int
+	variant string
+	w       *lineRec
+	w2      *lineRec
+	done    []bool
+}
+
+type lineRec struct{ lines []string }
+
+func (l *lineRec) Write(p []byte) (int, error) {
+	l.lines = append(l.lines, string(p))
+	return len(p), nil
+}
+
+func (c *concInst) Body() {
+	c.w, c.w2 = &lineRec{}, &lineRec{}
+	parent := zerolog.New(c.w).With().Str("p", "parent").Logger()
+	if c.variant == "hooked" {
+		parent = parent.Hook(tagHook{100}).Hook(tagHook{101}).Hook(tagHook{102})
+	}
+	c.done = make([]bool, c.threads)
+	for t := 0; t < c.threads; t++ {
+		t := t
+		mcrt.GoNamed(fmt.Sprintf("d%d", t), false, func() {
+			child := parent.With().Int("c", t).Logger()
+			mcrt.Point("step")
+			hooked := child.Hook(tagHook{t})
+			mcrt.Point("step")
+			hooked.Info().Str("who", fmt.Sprintf("hooked%d", t)).Msg("m")
+			mcrt.Point("step")
+			child.UpdateContext(func(cx zerolog.Context) zerolog.Context { return cx.Int("u", t) })
+			mcrt.Point("step")
+			child.Warn().Str("who", fmt.Sprintf("child%d", t)).Msg("m")
+			mcrt.Point("step")
+			out := parent.Output(c.w2)
+			out.Error().Str("who", fmt.Sprintf("out%d", t)).Msg("m")
+			mcrt.Point("step")
+			parent.Info().Str("who", fmt.Sprintf("parent%d", t)).Msg("m")
+			c.done[t] = true
+		})
+	}
+	mcrt.Block("join", nil, func() bool {
+		for _, d := range c.done {
+			if !d {
+				return false
+			}
+		}
+		return true
+	})
+}
+
+func (c *concInst) Digest() string {
+	var ws []string
+	for _, l := range append(append([]string{}, c.w.lines...), c.w2.lines...) {
+		if i := strings.Index(l, `"who":"`); i >= 0 {
+			j := strings.Index(l[i+7:], `"`)
+			ws = append(ws, l[i+7:i+7+j])
+		}
+	}
+	return strings.Join(ws, ",")
+}
+
+func (c *concInst) ExtraKey() uint64 {
+	return explore.HashStrings(c.w.lines...) ^ explore.HashStrings(c.w2.lines...)*3 ^ explore.HashStrings(fmt.Sprint(c.done))
+}
+
+func (c *concInst) Check(res *mcrt.Result) []explore.Violation {
+	var vs []explore.Violation
+	for _, p := range res.Panics {
+		vs = append(vs, explore.Violation{Prop: "C05", Msg: "panic: " + strings.SplitN(p, "\n", 2)[0]})
+	}
+	if res.Capped || len(res.Panics) > 0 {
+		return vs
+	}
+	ph := ""
+	if c.variant == "hooked" {
+		ph = `,"hook":100,"hook":101,"hook":102`
+	}
+	want := map[string]string{}
+	dest := map[string]int{}
+	for t := 0; t < c.threads; t++ {
+		want[fmt.Sprintf("hooked%d", t)] = fmt.Sprintf(`{"level":"info","p":"parent","c":%d,"who":"hooked%d"%s,"hook":%d,"message":"m"}`+"\n", t, t, ph, t)
+		want[fmt.Sprintf("child%d", t)] = fmt.Sprintf(`{"level":"warn","p":"parent","c":%d,"u":%d,"who":"child%d"%s,"message":"m"}`+"\n", t, t, t, ph)
+		want[fmt.Sprintf("out%d", t)] = fmt.Sprintf(`{"level":"error","p":"parent","who":"out%d"%s,"message":"m"}`+"\n", t, ph)
+		dest[fmt.Sprintf("out%d", t)] = 1
+		want[fmt.Sprintf("parent%d", t)] = fmt.Sprintf(`{"level":"info","p":"parent","who":"parent%d"%s,"message":"m"}`+"\n", t, ph)
+	}
+	seen := map[string]int{}
+	for wi, lines := range [][]string{c.w.lines, c.w2.lines} {
+		for _, l := range lines {
+			who := ""
+			if i := strings.Index(l, `"who":"`); i >= 0 {
+				j := strings.Index(l[i+7:], `"`)
+				who = l[i+7 : i+7+j]
+			}
+			seen[who]++
+			if w, ok := want[who]; !ok || w != l {
+				vs = append(vs, explore.Violation{Prop: "C05", Msg: fmt.Sprintf("event of node %q is %q, its own derivation path gives %q", who, l, w)})
+				return vs
+			}
+			if dest[who] != wi {
+				vs = append(vs, explore.Violation{Prop: "C05", Msg: fmt.Sprintf("event of node %q went to destination %d, want %d", who, wi, dest[who])})
+				return vs
+			}
+		}
+	}
+	if !res.Deadlock {
+		for who := range want {
+			if seen[who] != 1 {
+				vs = append(vs, explore.Violation{Prop: "C05", Msg: fmt.Sprintf("node %q emitted %d events, want 1", who, seen[who])})
+				break
+			}
+		}
+	}
+	return vs
+}
+
+func concFactory(name string) *explore.Scenario {
+	var n int
+	parts := strings.SplitN(name, "/", 2)
+	if len(parts) != 2 {
+		return nil
+	}
+	if _, err := fmt.Sscanf(parts[0], "T%d", &n); err != nil {
+		return nil
+	}
+	return &explore.Scenario{Name: name, WriterProgress: true, New: func() explore.Instance { return &concInst{threads: n, variant: parts[1]} },
+		Setup: func() { zerolog.SetGlobalLevel(zerolog.TraceLevel) }}
+}
+
+func concPart(r *seq.Run, tier string) {
+	plans := []drv.Plan{
+		{Scenario: "T2/plain", Bound: 3, Cache: true, Single: true, MaxSteps: 20000},
+		{Scenario: "T2/hooked", Bound: 3, Cache: true, Single: true, MaxSteps: 20000},
+		{Scenario: "T3/plain", Bound: 2, Cache: true, Single: true, MaxSteps: 20000},
+	}
+	if tier == "thorough" {
+		plans = []drv.Plan{
+			{Scenario: "T2/plain", Bound: -1, Cache: true, Single: true, MaxSteps: 20000},
+			{Scenario: "T2/hooked", Bound: 6, Cache: true, Single: true, MaxSteps: 20000},
+			{Scenario: "T3/plain", Bound: 4, Cache: true, Single: true, MaxSteps: 20000},
+			{Scenario: "T3/hooked", Bound: 3, Cache: true, Single: true, MaxSteps: 20000},
+		}
+	}
+	stats, err := drv.ExploreAll(concFactory, plans, time.Now().Add(15*time.Minute))
+	if err != nil {
+		fmt.Println("INFRA:", err)
+		os.Exit(2)
+	}
+	var execs int64
+	for _, st := range stats {
+		execs += st.Execs
+		r.Transitions += st.Steps
+		for k := range st.Outcomes {
+			r.Eval(st.Scenario+"|"+k, true)
+		}
+		r.Evals += st.Execs - int64(len(st.Outcomes))
+		if !st.Exhaustive {
+			r.Cap(st.Scenario + ":" + st.CapHit)
+		}
+		for _, s := range st.Samples {
+			r.Sample("concurrent " + st.Scenario + ": " + s)
+		}
+		if os.Getenv("VERIF_VERBOSE") != "" {
+			fmt.Printf("  %-20s bound=%d execs=%d steps=%d pruned=%d outcomes=%d exh=%v\n", st.Scenario, st.Bound, st.Execs, st.Steps, st.Pruned, len(st.Outcomes), st.Exhaustive)
+		}
+	}
+	r.Count("concurrent_executions", execs)
+	out := drv.Classify("C05", concFactory, stats, 20000)
+	r.AddExternal(out.Violations)
+}
